@@ -63,6 +63,8 @@ type propSpec struct {
 	level    string
 	assume   []string
 	raceFree bool // additionally run the free-running race pass
+	// untouched: run the "untouched" phase first (harness linked with the unrewritten package)
+	untouched bool
 }
 
 var verifDir = "/verif"
@@ -123,7 +125,7 @@ func main() {
 	spec, ok := specs[prop]
 	if !ok {
 		if strings.HasPrefix(prop, "SELF") {
-			spec = propSpec{level: "model_checking"}
+			spec = propSpec{level: "model_checking", untouched: true}
 		} else {
 			die(2, "unknown property %s", prop)
 		}
@@ -151,6 +153,12 @@ func main() {
 }
 
 func build(repo, scratch string, race bool) (string, *rewrite.Result, error) {
+	return buildVariant(repo, scratch, race, false)
+}
+
+// buildVariant: untouched = link the harness against the UNREWRITTEN package sod
+// (overlay adds the shim packages only, so that the harness still compiles).
+func buildVariant(repo, scratch string, race, untouched bool) (string, *rewrite.Result, error) {
 	os.Setenv("GOFLAGS", "-mod=mod")
 	os.Setenv("GOPROXY", "off")
 	os.Setenv("GOSUMDB", "off")
@@ -160,10 +168,15 @@ func build(repo, scratch string, race bool) (string, *rewrite.Result, error) {
 		return "", nil, err
 	}
 	bin := filepath.Join(scratch, "harness")
-	args := []string{"build", "-overlay", res.Overlay, "-tags", "verif", "-o", bin}
+	ov := res.Overlay
+	if untouched {
+		bin += "-untouched"
+		ov = res.OverlayShimsOnly
+	}
+	args := []string{"build", "-overlay", ov, "-tags", "verif", "-o", bin}
 	if race {
 		bin += "-race"
-		args = []string{"build", "-race", "-overlay", res.Overlay, "-tags", "verif", "-o", bin}
+		args = []string{"build", "-race", "-overlay", ov, "-tags", "verif", "-o", bin}
 	}
 	if repo != "/repo" {
 		// the harness module replaces sod by /repo: build with an alternate go.mod
@@ -268,6 +281,15 @@ func run(prop, tier string, seed int64, repo, replay, scratch string, spec propS
 		// without it for the deeper linearizability exploration
 		phases = []phase{{rbin, "race", true}, {bin, "lin", false}}
 	}
+	if spec.untouched {
+		ubin, _, err := buildVariant(repo, scratch, false, true)
+		if err != nil {
+			fmt.Fprintf(os.Stderr, "check: engine error: %v\n", err)
+			return 2
+		}
+		// first the untouched package on a real directory, then the shimmed build compares
+		phases = []phase{{ubin, "untouched", false}, {bin, "compare", false}}
+	}
 	workers := spec.workers
 	if workers <= 0 {
 		workers = runtime.NumCPU()
@@ -297,7 +319,7 @@ func run(prop, tier string, seed int64, repo, replay, scratch string, spec propS
 				}
 				cmd := exec.Command(ph.bin, args...)
 				cmd.Dir = verifDir
-				cmd.Env = append(os.Environ(), "VERIF_PHASE="+ph.name, "GOMAXPROCS=1", "GORACE=halt_on_error=0 exitcode=0 history_size=2", "GOTRACEBACK=all")
+				cmd.Env = append(os.Environ(), "VERIF_PHASE="+ph.name, "VERIF_SCRATCH="+scratch, "GOMAXPROCS=1", "GORACE=halt_on_error=0 exitcode=0 history_size=2", "GOTRACEBACK=all")
 				stdout, _ := cmd.StdoutPipe()
 				var stderr bytes.Buffer
 				cmd.Stderr = &stderr
